@@ -249,6 +249,24 @@ theorem runFrom_fail (fails : Nat → Option Failure) :
       (fun j st' hj hs => hv (j + 1) st' (by omega) (by simpa using hs))
     simp [runFrom, h0, hst, ih]
 
+/-- Whatever kind of step fails first — a write step included — the command ends with that
+failure's status and message: no failure is swallowed. -/
+theorem run_status (fails : Nat → Option Failure) :
+    ∀ (steps : List Step) (i w k : Nat) (f : Failure),
+      k < steps.length → fails (i + k) = some f → (∀ j, j < k → fails (i + j) = none) →
+      (runFrom fails i steps w).status = exitStatus f
+      ∧ (runFrom fails i steps w).message = failureMessage f
+  | [], _, _, _, _, hk, _, _ => by simp at hk
+  | st :: rest, i, w, 0, f, _, hf, _ => by
+    simp only [Nat.add_zero] at hf
+    simp [runFrom, hf]
+  | st :: rest, i, w, k + 1, f, hk, hf, hnone => by
+    have h0 : fails i = none := by simpa using hnone 0 (Nat.succ_pos _)
+    have ih := run_status fails rest (i + 1) (if st.kind = .write then w + 1 else w) k f (by simpa using hk)
+      (by rw [show i + 1 + k = i + (k + 1) by omega]; exact hf)
+      (fun j hj => by rw [show i + 1 + j = i + (j + 1) by omega]; exact hnone (j + 1) (by omega))
+    simpa [runFrom, h0] using ih
+
 theorem runFrom_ok (fails : Nat → Option Failure) :
     ∀ (steps : List Step) (i w : Nat), (∀ j, fails j = none) →
       runFrom fails i steps w = ⟨0, false, w + (steps.filter (fun st => st.kind = StepKind.write)).length⟩
@@ -326,6 +344,19 @@ example : ¬ ∃ b, IsBounds "1,2,3,4,5".toList b := by
   have h2 : parseBounds "1,2,3,4,5".toList = none := by decide +kernel
   rw [h2] at h1
   cases h1
+
+/-- the formal core of finding F6: reading only a prefix of the text cannot agree with the
+grammar — the same prefix continues to a different box, or to no box at all -/
+example : parseBounds "1,2,3,4".toList = some (1, 2, 3, 4)
+    ∧ parseBounds "1,2,3,4.5".toList = some (1, 2, 3, (9 : Rat) / 2)
+    ∧ parseBounds "1,2,3,4x".toList = none ∧ parseBounds "1,2,3,4,5".toList = none := by
+  decide +kernel
+
+/-- `float()` as modelled for the driver: ties to even, exact on dyadic values -/
+example : toDouble ((1 : Rat) / 10) = (3602879701896397 : Rat) / 36028797018963968
+    ∧ toDouble ((9 : Rat) / 2) = (9 : Rat) / 2 ∧ toDouble (-(3 : Rat) / 8) = -(3 : Rat) / 8
+    ∧ toDouble 9007199254740993 = 9007199254740992 ∧ toDouble 9007199254740995 = 9007199254740996 := by
+  decide +kernel
 
 example : geometryArgument "{}".toList .notGeometry ⟨true, "x.json".toList, true⟩ = .error .invalidGeojson := by
   decide +kernel
